@@ -231,6 +231,109 @@ def default_tables_config(h, mesh, order, kind='cell'):
         h.valid('all polynomials of degree <= %d: |assembled - exact| <= 1e-11' % order, h.And(r <= tol, r >= -tol), kinds=('default',))
 
 
+def default_tables_facet_config(h, mesh, order, kind='facet'):
+    """(d) on facets: the library's rule of the given order on the FACET reference cell through FacetBasis / InteriorFacetBasis on
+    numeric geometry; for all polynomials of that degree with coefficients in [-1,1]: |assembled - closed form| <= 1e-10 (the facet
+    measures are square roots: errors are evaluated numerically, the universal statement over the coefficients is decided by the solver)."""
+    import math
+    import skfem as S
+    with warnings.catch_warnings():
+        warnings.simplefilter('ignore')
+        m = make_mesh(h, mesh, free='none')
+        P, t = m.doflocs, np.asarray(m.t)
+        Pf = np.array([[to_float(h, P[i, v]) for v in range(P.shape[1])] for i in range(P.shape[0])], dtype=float)
+        d = P.shape[0]
+        k = d - 1
+        dt = object if h.sym_mode else np.float64
+        e = m.elem()
+        try:
+            b = S.FacetBasis(m, e, intorder=order) if kind == 'facet' else S.InteriorFacetBasis(m, e, intorder=order, side=int(kind[-1]))
+        except NotImplementedError:
+            h.concrete('order declined', True)
+            t_ = h.sym('t', ())
+            h.zero('trivial', t_ - t_)
+            return
+        fac = np.asarray(m.facets)[:, np.asarray(b.find)]
+        gs = exps(d, order)
+        c = h.sym('c', (len(gs),), nominal=np.ones(len(gs)))
+        h.sample(dict(mesh=mesh, order=order, basis=kind, facets=[int(f) for f in np.asarray(b.find)], monomials=len(gs)))
+        f_ = math.factorial
+        r = 0
+        worst = 0.0
+        for j, alpha in enumerate(gs):
+            got = to_float(h, S.Functional(mono(alpha), dtype=dt).assemble(b))
+            want = 0.0
+            for col in range(fac.shape[1]):
+                fv = fac[:, col]
+                polys = []
+                for i in range(d):
+                    pl = {tuple([0] * k): Fr(Pf[i, fv[0]])}
+                    for q in range(k):
+                        ex_ = [0] * k
+                        ex_[q] = 1
+                        pl[tuple(ex_)] = Fr(Pf[i, fv[q + 1]]) - Fr(Pf[i, fv[0]])
+                    polys.append(pl)
+                tot = {tuple([0] * k): Fr(1)}
+                for i in range(d):
+                    tot = p_mul(tot, p_pow(polys[i], alpha[i], k))
+                val = sum(cf * Fr(int(np.prod([f_(x) for x in ex_])) if k else 1, f_(sum(ex_) + k)) for ex_, cf in tot.items())
+                if d == 1:
+                    J = 1.0
+                elif d == 2:
+                    J = math.hypot(*(Pf[:, fv[1]] - Pf[:, fv[0]]))
+                else:
+                    J = float(np.linalg.norm(np.cross(Pf[:, fv[1]] - Pf[:, fv[0]], Pf[:, fv[2]] - Pf[:, fv[0]])))
+                want += J * float(val)
+            err = got - want
+            worst = max(worst, abs(err))
+            if h.sym_mode:
+                h.assume(h.And(c[j] >= -1, c[j] <= 1))
+                r = r + c[j] * tosym(Fr(err))
+            else:
+                r = r + min(1.0, max(-1.0, float(c[j]))) * err
+        h.note('largest single-monomial error %.2e' % worst)
+        tol = h.frac(1, 10 ** 10)
+        h.valid('all polynomials of degree <= %d on the facets: |assembled - exact| <= 1e-10' % order, h.And(r <= tol, r >= -tol), kinds=('default',))
+
+
+def default_order_config(h, mesh, spec):
+    """The element's DEFAULT integration order integrates its own mass matrix exactly on a straight-sided (for quadrilaterals /
+    hexahedra: general, non-parallelogram) cell: raising the order by 4 changes no entry, row-wise for all coefficient vectors in
+    [-1,1]^N to 1e-11 of the largest entry (numeric geometry; the universal statement over the coefficients is decided by the solver)."""
+    import skfem as S
+    with warnings.catch_warnings():
+        warnings.simplefilter('ignore')
+        m = make_mesh(h, mesh, free='none')
+        e = make_elem(spec)
+        dt = object if h.sym_mode else np.float64
+        b0 = S.CellBasis(m, e)
+        b1 = S.CellBasis(m, e, intorder=2 * e.maxdeg + 4)
+        N = int(b0.N)
+        mass = lambda u, v, w: u * v
+        M = []
+        for b in (b0, b1):
+            (rows, cols), data, shape, _ = S.BilinearForm(mass, dtype=dt)._assemble(b)
+            D = np.zeros((N, N))
+            for r_, c_, d_ in zip(rows, cols, data):
+                D[r_, c_] += to_float(h, d_)
+            M.append(D)
+        scale = float(np.abs(M[1]).max())
+        h.sample(dict(mesh=mesh, element=spec, default_points=int(b0.X.shape[-1]), reference_points=int(b1.X.shape[-1]), N=N,
+                      largest_entry_difference=float(np.abs(M[0] - M[1]).max())))
+        u = h.sym('u', (N,), nominal=np.ones(N))
+        if h.sym_mode:
+            for i in range(N):
+                h.assume(h.And(u[i] >= -1, u[i] <= 1))
+        tol = 1e-11 * scale
+        for i in range(N):
+            if h.sym_mode:
+                r = sum(tosym(Fr(float(M[0][i, j] - M[1][i, j]))) * u[j] for j in range(N))
+                h.valid('row %d: |(M_default - M_higher) u| <= 1e-11 max|M|' % i, h.And(r <= tosym(Fr(tol)), r >= -tosym(Fr(tol))), kinds=('default',))
+            else:
+                r = sum(float(M[0][i, j] - M[1][i, j]) * min(1.0, max(-1.0, float(u[j]))) for j in range(N))
+                h.valid('row %d: |(M_default - M_higher) u| <= 1e-11 max|M|' % i, abs(r) <= tol)
+
+
 def to_float(h, v):
     """Numeric value of a term that is constant up to root atoms of constants (numeric geometry)."""
     if not h.sym_mode:
@@ -374,8 +477,24 @@ def build_configs(tier, seed):
         add('default-tables/tri2/order=%d' % order, default_tables_config, mesh='tri2', order=order)
     for order in (range(2, 6) if quick else range(1, 10)):
         add('default-tables/tet2/order=%d' % order, default_tables_config, mesh='tet2', order=order, timeout=900)
+    # facet rules through FacetBasis / InteriorFacetBasis (triangle tables on tetrahedral facets incl. the ones with negative weights)
+    for order in (range(1, 9) if quick else range(1, 11)):
+        cfgs.append(dict(name='default-tables/tet2/facet/order=%d' % order, fn=default_tables_facet_config, kw=dict(mesh='tet2', order=order), opts=dict(timeout=900)))
+    for order in (3, 7):
+        cfgs.append(dict(name='default-tables/tet2/ifacet-1/order=%d' % order, fn=default_tables_facet_config, kw=dict(mesh='tet2', order=order, kind='ifacet-1'),
+                         opts=dict(timeout=900)))
+    for order in (2, 5):
+        cfgs.append(dict(name='default-tables/tri2/facet/order=%d' % order, fn=default_tables_facet_config, kw=dict(mesh='tri2', order=order), opts=dict(timeout=900)))
+    cfgs.append(dict(name='default-tables/line3perm/facet/order=2', fn=default_tables_facet_config, kw=dict(mesh='line3perm', order=2), opts=dict(timeout=900)))
     for order in (3, 6) if quick else (1, 3, 6, 9):
         add('default-tables/line3perm/order=%d' % order, default_tables_config, mesh='line3perm', order=order)
+    # the default order of every Lagrange class suffices for its own mass matrix (general quadrilaterals / hexahedra / prisms included)
+    for mesh, spec in [('quad2', 'ElementQuad1'), ('quad2', 'ElementQuad2'), ('quad2', 'ElementQuadS2'), ('hex1', 'ElementHex1'), ('hex1', 'ElementHexS2'),
+                       ('wedge1', 'ElementWedge1'), ('tri2', 'ElementTriP1'), ('tri2', 'ElementTriP2'), ('tri2', 'ElementTriP3'), ('tri2', 'ElementTriP4'),
+                       ('tri2', 'ElementTriMini'), ('tet2', 'ElementTetP1'), ('tet2', 'ElementTetP2'),
+                       ('line3perm', 'ElementLineP1'), ('line3perm', 'ElementLineP2'), ('line3perm', 'ElementLineMini'), ('quad2', 'ElementQuad0'),
+                       ('hex1', 'ElementHex0')] + ([] if quick else [('hex1', 'ElementHex2'), ('tri2', 'ElementTriCCR')]):
+        cfgs.append(dict(name='default-order/%s/%s' % (mesh, spec), fn=default_order_config, kw=dict(mesh=mesh, spec=spec), opts=dict(timeout=900)))
     add('quad-boundary/quad2mix', quad_boundary_config, mesh='quad2mix')
     add('quad-boundary/quad2', quad_boundary_config, mesh='quad2')
     # (e)
